@@ -7,6 +7,7 @@
        failing element leaked itself);
      - the arm does leak: witness list<string> truncated inside the second element (finding F-19a);
      - the regenerated inventory of unsafe sites is the list the model accounts for. *)
+From PV Require Import Thrift.AppMsg.
 From PVGen Require Import Gen GenSpec GenKeep GenAsync Own Proofs.GenBase Proofs.EncP Proofs.RoundP.
 From PV Require Import Proofs.TotalP.
 From Coq Require Import ZifyN ZifyNat ZifyBool.
@@ -992,3 +993,107 @@ Proof. vm_compute. reflexivity. Qed.
 Example pt_keep :
   own_decode_keep_top (pt_schema true) PBinary (TyList (TyRef 0)) pt_input = (Err EInvalidData, [GStruct [(1, GI32 5)] []]).
 Proof. vm_compute. reflexivity. Qed.
+
+(* ================= the message level ================= *)
+(* the regenerated inventory of process-wide / thread-local retention sites of pilota/src/thrift is the list this
+   model accounts for, and every accounted reason is valid: fails to compile as soon as the working tree gains a
+   table, pool, cache, lazily initialised global or deliberate leak in the Thrift runtime *)
+Lemma retention_inventory_accounted : map fst accounted_retain_sites = retain_sites.
+Proof. vm_compute. reflexivity. Qed.
+Lemma retention_inventory_justified : forallb inert_justified accounted_retain_sites = true.
+Proof. vm_compute. reflexivity. Qed.
+
+(* hence no site retains anything *)
+Lemma retain_sites_inert : forallb (fun st => negb (site_retains st)) retain_sites = true.
+Proof.
+  rewrite <- retention_inventory_accounted. rewrite forallb_forall. intros st Hin.
+  apply in_map_iff in Hin as (sr & <- & Hin).
+  pose proof retention_inventory_justified as J. rewrite forallb_forall in J. specialize (J sr Hin).
+  unfold inert_justified in J. destruct (snd sr). apply andb_prop in J as [J _]. exact J.
+Qed.
+
+Lemma retain_flags_projection : retain_flags = map site_retains retain_sites.
+Proof. vm_compute. reflexivity. Qed.
+
+Lemma global_retained_nil hs : global_retained hs = [].
+Proof.
+  unfold global_retained. rewrite retain_flags_projection.
+  pose proof retain_sites_inert as H. rewrite forallb_forall in H.
+  induction retain_sites as [|st r IH]; [reflexivity|]. cbn [map flat_map].
+  rewrite (proj1 (negb_true_iff _) (H st (or_introl eq_refl))). cbn [app]. apply IH. intros x Hx. apply H. right. exact Hx.
+Qed.
+
+Lemma own_body_noleak md kb S p fuel b s : body_no_heap_list md kb S b -> snd (own_body md kb S p fuel b s) = [].
+Proof.
+  destruct b as [t|]; cbn [own_body body_no_heap_list]; [|reflexivity].
+  destruct md, kb; intros H.
+  - apply no_leak_keep_partial, H.
+  - apply no_leak_partial, H.
+  - apply no_leak_async.
+  - apply no_leak_async.
+Qed.
+
+(* whatever happens to envelope and body, once identifier, value / error, protocol and input have been dropped nothing
+   that the identifier held is held by anything else *)
+Theorem message_ident_released md kb S p fuel b s : mo_retained (own_message md kb S p fuel b s) = [].
+Proof.
+  unfold own_message. destruct (m_message_begin md p s) as [[id s1]| |]; [|reflexivity..].
+  destruct (fst (own_body md kb S p fuel b s1)) as [[v s2]| |]; cbn [mo_retained]; apply global_retained_nil.
+Qed.
+
+(* C19 at the message level, outside the class of F-19a *)
+Theorem message_no_leak_partial md kb S p fuel b s : body_no_heap_list md kb S b ->
+  mo_leaked (own_message md kb S p fuel b s) = [] /\ mo_retained (own_message md kb S p fuel b s) = [].
+Proof.
+  intros H. split; [|apply message_ident_released].
+  unfold own_message. destruct (m_message_begin md p s) as [[id s1]| |]; [|reflexivity..].
+  pose proof (own_body_noleak md kb S p fuel b s1 H) as E.
+  destruct (fst (own_body md kb S p fuel b s1)) as [[v s2]| |]; cbn [mo_leaked]; exact E.
+Qed.
+
+(* what the body leaks at the message level is what the body decoder leaks (F-19a unchanged by the envelope) *)
+Theorem message_leak_is_body_leak md kb S p fuel b s id s1 :
+  m_message_begin md p s = Ok (id, s1) ->
+  mo_leaked (own_message md kb S p fuel b s) = snd (own_body md kb S p fuel b s1) /\
+  mo_ident (own_message md kb S p fuel b s) = name_holds md (m_name id).
+Proof.
+  intros E. unfold own_message. rewrite E.
+  destruct (fst (own_body md kb S p fuel b s1)) as [[v s2]| |]; split; reflexivity.
+Qed.
+
+(* erasing the ghosts: the outcome is read_message_begin followed by the emitted decoder on the same protocol object *)
+Theorem message_erase_sync S p fuel t s :
+  mo_outcome (own_message MSync false S p fuel (BType t) s) =
+  (let* (id, s1) := r_message_begin p s in let* (v, s2) := gen_decode S p fuel t s1 in Ok (id, v, s2)).
+Proof.
+  unfold own_message. cbn [m_message_begin own_body]. destruct (r_message_begin p s) as [[id s1]| |]; cbn [bind]; try reflexivity.
+  rewrite own_proj_sync. destruct (gen_decode S p fuel t s1) as [[v s2]| |]; reflexivity.
+Qed.
+Theorem message_erase_async S kb p fuel t s :
+  mo_outcome (own_message MAsync kb S p fuel (BType t) s) =
+  (let* (id, s1) := a_message_begin p s in let* (v, s2) := gen_decode_async S p fuel t s1 in Ok (id, v, s2)).
+Proof.
+  unfold own_message. cbn [m_message_begin own_body]. destruct (a_message_begin p s) as [[id s1]| |]; cbn [bind]; try reflexivity.
+  replace (match kb with true => own_decode MAsync S p fuel t s1 | false => own_decode MAsync S p fuel t s1 end)
+    with (own_decode MAsync S p fuel t s1) by (destruct kb; reflexivity).
+  rewrite own_proj_async. destruct (gen_decode_async S p fuel t s1) as [[v s2]| |]; reflexivity.
+Qed.
+
+(* non-vacuity: binary CALL envelope, 30-byte method name (beyond FastStr's inline capacity), sequence number 7, then a
+   struct { 1: list<i32> } body cut inside the list: the identifier holds a slice of the input while it lives, the
+   body is rejected, nothing is left afterwards *)
+Definition msg_schema : schema := [DStruct [mkField 1 Optional (TyList TyI32) None] false false].
+Definition msg_input : list byte :=
+  ([x80; x01; x00; x01; x00; x00; x00; x1e] ++ repeat x6d 30 ++ [x00; x00; x00; x07] ++
+   [x0f; x00; x01; x08; x00; x00; x00; x02; x00; x00; x00; x05; x00])%byte.
+Example msg_rejected :
+  let o := own_message_top MSync false msg_schema PBinary (BType (TyRef 0)) msg_input in
+  mo_stage o = 1%nat /\ mo_outcome o = Err EInvalidData /\ mo_ident o = [HInputRef] /\ mo_leaked o = [] /\ mo_retained o = [].
+Proof. vm_compute. auto. Qed.
+Example msg_class : body_no_heap_list MSync false msg_schema (BType (TyRef 0)).
+Proof. cbn. apply no_heap_list_b_sound. vm_compute. reflexivity. Qed.
+(* the same bytes through the async readers: the name is an owned heap string *)
+Example msg_rejected_async :
+  let o := own_message_top MAsync false msg_schema PBinary (BType (TyRef 0)) msg_input in
+  mo_stage o = 1%nat /\ mo_ident o = [HHeap] /\ mo_leaked o = [] /\ mo_retained o = [].
+Proof. vm_compute. auto. Qed.
